@@ -192,7 +192,10 @@ pub fn gen_history(seed: u64) -> History {
     let run_tests = !with_limit && k.chance(1, 5);
     let nops = r.range(3, 10) as usize;
     let many_failing_calls = k.chance(1, 25);
-    let knobs = GenKnobs::swarm(&mut k);
+    let mut knobs = GenKnobs::swarm(&mut k);
+    // the step cap of a history's operations is fixed: only short storms here (the long ones,
+    // which make residue accumulate within one frame, are unwindsim's)
+    knobs.max_storm = knobs.max_storm.min(30);
     let mut ops: Vec<Op> = vec![];
     let mut cur_funcs = 0usize;
     let mut gl_model: Vec<i64> = vec![];
